@@ -783,7 +783,7 @@ func run(r *core.Run) {
 		"M: every malformed core x every embedding context, built and (if it builds) validated against every input; " +
 		"twins: every JSON-decoded / symbol-keyed input against its lisp-built / string-keyed counterpart. " +
 		"Non-trivial = a schema with at least one constraint that accepts at least one input and rejects at least one; distinct by schema source")
-	r.Assume("unspecified (only 'outcome is (), wrong-type or failed-constraint' is asserted): s:gt/gte/lt/lte/positive/negative on a non-number; s:len* on anything but an ASCII string, bytes or array; s:regexp on a non-string; s:of with no allowed type on a non-empty array; s:of / s:may-have-key / s:no-other-keys / s:when on a value of the wrong container kind; s:when when the guard key or the match key is absent; s:is-truthy/is-falsy on nil, lists, functions, tagged values and symbols other than true/false; () under type bool (lang.md: nil represents false)")
+	r.Assume("unspecified (only 'outcome is (), wrong-type or failed-constraint' is asserted): s:gt/gte/lt/lte/positive/negative on a non-number; s:len* on anything but an ASCII string, bytes or array; s:of with no allowed type on a non-empty array; s:of / s:may-have-key / s:no-other-keys / s:when on a value of the wrong container kind; s:when when the guard key or the match key is absent; s:is-truthy/is-falsy on nil, lists, functions, tagged values and symbols other than true/false; () under type bool (lang.md: nil represents false)")
 	r.Assume("mixed int/float comparison follows the language (via float64, lang.md 'integer precision'): an int beyond 2^53 against a float, and int-vs-float equality under s:in, are unspecified; two ints compare exactly")
 	r.Assume("a rejection may carry either wrong-type or failed-constraint, except: base-type mismatch of a validator = wrong-type, a failing leaf constraint or s:not directly in a constraint list = failed-constraint (README)")
 	r.Assume("s:has-key / s:may-have-key without an allowed type only test presence (README: '(s:has-key name[ type ...])', 'You may wish to use this without a type set')")
